@@ -716,7 +716,7 @@ Definition ok_sub_single (cf : cfg) (w : list change) (d : Z) (subs : list sub) 
       && match get_by_sn sn w with
          | None => false
          | Some cc =>
-             frag_ok cf cc k s && (1 <=? k) && (k <=? num_frags (c_dmax cf) (len (ch_bytes cc)))
+             frag_ok cf cc k s && (1 <=? k)
              && match ch_single cc with
                 | None => true
                 | Some g => (g =? d) && oz_eqb rd (Some g)
